@@ -620,6 +620,8 @@ class Engine:
             return z3.Length(v.t) > 0
         if isinstance(v, (VFunc, VBound, VStub, VClass, VPartial, VNamespace)):
             return True
+        if isinstance(v, Obj) and v.cls == 'SeqList':
+            return z3.Length(v.fields['seq']) > 0
         if isinstance(v, Obj):
             h = self.builtins.get('__truth__')
             if h:
@@ -955,6 +957,8 @@ class Engine:
             if name in o.attrs:
                 return o.attrs[name]
             raise Unsupported('%s.%s has no stub' % (o.name, name), node)
+        if isinstance(o, Obj) and o.cls == 'SeqList':
+            return self._seqlist_attr(o, name, node)
         if isinstance(o, Obj):
             if name in o.fields:
                 return o.fields[name]
@@ -1032,12 +1036,43 @@ class Engine:
                 return o.items[i]
             except IndexError:
                 self.throw('IndexError')
+        if isinstance(o, Obj) and o.cls == 'SeqList':
+            return self._seqlist_item(o, k, node)
         h = self.builtins.get('__getitem__')
         if h is not None:
             r = h(self, o, k, node)
             if r is not None:
                 return r
         raise Unsupported('subscript of %r' % (o,), node)
+
+    # ---- a Python list whose content is an abstract sequence (result of `[x for x in <abstract sequence>]`)
+    def mk_seqlist(self, seq, wrap):
+        return Obj('SeqList', dict(seq=seq, wrap=wrap))
+
+    def _seqlist_item(self, o, k, node, remove=False):
+        seq, wrap = o.fields['seq'], o.fields['wrap']
+        if not isinstance(k, VInt):
+            raise Unsupported('list index %r' % (k,), node)
+        n = z3.Length(seq)
+        i = z3.If(k.t < 0, n + k.t, k.t)
+        if not self.branch(z3.And(i >= 0, i < n)):
+            self.throw('IndexError')
+        v = wrap(seq[i])
+        if remove:
+            o.fields['seq'] = z3.Concat(z3.Extract(seq, 0, i), z3.Extract(seq, i + 1, n - i - 1))
+        return v
+
+    def _seqlist_attr(self, o, name, node):
+        if name == 'pop':
+            return VStub('list.pop', lambda E_, a, k: self._seqlist_item(o, a[0] if a else VInt(-1), node, remove=True))
+        if name == 'append':
+            def append(E_, a, k):
+                if not (isinstance(a[0], VVal) and a[0].t.sort() == o.fields['seq'].sort().basis()):
+                    raise Unsupported('append of %r to an abstract list' % (a[0],), node)
+                o.fields['seq'] = z3.Concat(o.fields['seq'], z3.Unit(a[0].t))
+                return NONE
+            return VStub('list.append', append)
+        raise Unsupported('list.%s on an abstract list' % name, node)
 
     def e_Lambda(self, e, fr):
         return VFunc(e, fr, fr.module, (fr.qualname or '') + '.<lambda>')
@@ -1078,10 +1113,18 @@ class Engine:
         return self._comp(e, fr, 'gen')
 
     def _comp(self, e, fr, kind):
-        if len(e.generators) != 1 or e.generators[0].ifs or e.generators[0].is_async:
+        if len(e.generators) != 1 or e.generators[0].ifs:
             raise Unsupported('comprehension shape', e)
         g = e.generators[0]
         src = self.eval(g.iter, fr)
+        if g.is_async and isinstance(src, (VTuple, VList)):
+            raise Unsupported('async comprehension over a plain sequence', e)
+        if isinstance(src, VSeq) and kind == 'list' and isinstance(g.target, ast.Name) and \
+                isinstance(e.elt, ast.Name) and e.elt.id == g.target.id:
+            # [x for x in <abstract sequence>] / [x async for x in <contracted async generator>]: a list of it
+            h = self.builtins.get('__comprehension__')
+            r = h(self, e, fr, kind, src) if h is not None else None
+            return r if r is not None else self.mk_seqlist(src.t, src.wrap)
         if isinstance(src, (VTuple, VList)):
             out = []
             for it in src.items:
@@ -1481,10 +1524,18 @@ class Engine:
             return self.block(st.body, fr)
         it = items[0]
         cm = self.eval(it.context_expr, fr)
-        h = self.builtins.get('__with__')
-        if h is None:
-            raise Unsupported('with', st)
-        enter, exit_ = h(self, cm, is_async, st)
+        if isinstance(cm, Obj) and cm.cls == 'Suppress' and not is_async:
+            # contextlib.suppress(*classes): swallows exactly the exceptions that are instances of one of them
+            def enter():
+                return NONE
+
+            def exit_(exc):
+                return exc is not None and any(self.branch(self.exc_isinstance(exc, c)) for c in cm.fields['classes'])
+        else:
+            h = self.builtins.get('__with__')
+            if h is None:
+                raise Unsupported('with', st)
+            enter, exit_ = h(self, cm, is_async, st)
         v = enter()
         if it.optional_vars is not None:
             self.assign(it.optional_vars, v, fr)
